@@ -69,12 +69,15 @@ def run(ctx):
     files = []
     for j, c in enumerate(cases):
         files.append((f"c03_{j}", core.WP_HEADER + f"Eval vm_compute in {c['term']}.\n"))
-    outs = lib.coq_run_many(ctx, files, timeout=300)
+    outs = lib.coq_run_many(ctx, files, timeout=150)
     todo = []
     for j, c in enumerate(cases):
         okc, o = outs[f"c03_{j}"]
         bl = lib.parse_bool_list(o) if okc else None
         ctx.count({"t": c["text"], "g": c["goal"]}, nontrivial=c["n_ms"] >= 3)
+        if not okc and o.startswith("TIMEOUT"):
+            ctx.coverage["validator_time_limit"] = ctx.coverage.get("validator_time_limit", 0) + 1
+            continue
         ctx.coverage["obligations"] += 1
         if bl and all(bl):
             ctx.coverage["discharged"] += 1
